@@ -1,6 +1,6 @@
 (* Facts about well-formed tables and assignments. *)
 From Coq Require Import List NArith Arith Bool Lia.
-From V Require Import Gen.Tables Model.Kernels Base.Bits Spec.Bfun.
+From V Require Import Gen.Tables Model.Kernels Model.TwoLevel Base.Bits Spec.Bfun.
 Import ListNotations.
 Open Scope N_scope.
 
@@ -111,4 +111,11 @@ Proof.
       apply N.div_le_lower_bound; [lia|]. change 64 with (2 ^ 6). rewrite <- N.pow_add_r.
       replace (6 + N.of_nat (n - 6)) with (N.of_nat n) by lia. exact Hm. }
     lia.
+Qed.
+
+(* the guard-free table lookup used by the two-level models is [val] *)
+Lemma tget_val t m : Model.TwoLevel.tget t m = val t m.
+Proof.
+  unfold Model.TwoLevel.tget, val. rewrite N.shiftr_div_pow2. change (2 ^ 6) with 64.
+  change 63 with (N.ones 6). rewrite N.land_ones. reflexivity.
 Qed.
